@@ -205,6 +205,10 @@ def gen_plan(rng, cfg, tier, profile):
     plan['p_preempt'] = 0.0
     plan.pop('file_p', None)
     plan['p_lock'] = rng.choice([0.3, 0.6, 0.9])
+  if profile in ('c02', 'c10', 'c17') and rng.random() < (0.25 if tier == 'thorough' else 0.08):
+    # pre-emption between the bytecodes of carbon/cache.py (read-modify-write of size etc.)
+    plan['opcode'] = True
+    plan['p_opcode'] = rng.choice([0.005, 0.02, 0.1])
   if profile == 'c03' and rng.random() < 0.8:
     nf = rng.choice([1, 1, 2, 3, 6])
     faults = {}
